@@ -61,7 +61,7 @@ Fixpoint text (W : world) (ft : Z -> str) (lvl : nat) (v : value) {struct v} : s
   | VStr s => py_repr_str s
   | VBytes _ b => py_repr_bytes b
   | VDecimal s => lit "Decimal('" ++ s ++ lit "')"
-  | VQName t => lit "QName(" ++ dq t ++ lit ")"
+  | VQName t => lit "QName(" ++ [34%N] ++ flat_map (esc_str_char 34) t ++ [34%N] ++ lit ")"
   | VXml k args off => xml_name k ++ lit "(" ++ args_text (xml_repr_args k args off) ++ lit ")"
   | VDuration d => lit "XmlDuration(" ++ dq d ++ lit ")"
   | VPeriod d => lit "XmlPeriod(" ++ dq d ++ lit ")"
